@@ -5,12 +5,15 @@ package swarm
 // C12 (swarm part): limited (relayed) connections are never mistaken for direct ones. Engine E2 over the
 // instrumented swarm package with the fake network of harness/swarmfix: stream opens / dials with every
 // context option set race against a direct connection appearing or disappearing, waiter cancellation and the
-// dial-peer timeout (virtual time).
+// dial-peer timeout (virtual time). Addresses that only BECOME relay addresses when they are resolved are part of
+// the space: the swarm runs its real resolver (ResolverFromMaDNS) over a scripted DNS backend (c12DNS), and the
+// peerstore of some scenarios holds /dnsaddr and /dns4 names instead of literal addresses.
 
 import (
 	"context"
 	"errors"
 	"fmt"
+	"net"
 	"os"
 	"strings"
 	"testing"
@@ -18,12 +21,51 @@ import (
 
 	"github.com/libp2p/go-libp2p/core/network"
 	"github.com/libp2p/go-libp2p/core/peerstore"
-	vs "github.com/libp2p/go-libp2p/x/verif/vsched"
 	"github.com/libp2p/go-libp2p/x/verif/vrep"
+	vs "github.com/libp2p/go-libp2p/x/verif/vsched"
 	ma "github.com/multiformats/go-multiaddr"
+	madns "github.com/multiformats/go-multiaddr-dns"
 )
 
 const c12TCP1 = "/ip4/1.2.3.4/tcp/4001"
+
+// Names in the scripted DNS (c12DNS) and what they resolve to.
+const (
+	c12DNSRelayOnly = "/dnsaddr/relayonly.verif.example"    // TXT -> relay address of P
+	c12DNSBoth      = "/dnsaddr/both.verif.example"         // TXT -> relay address of P, tcp address of P, an address of another peer
+	c12DNSNested    = "/dnsaddr/nested.verif.example"       // TXT -> /dnsaddr/relayonly.verif.example (one more level)
+	c12DNS4Direct   = "/dns4/direct.verif.example/tcp/4001" // A   -> 1.2.3.6
+	c12TCPResolved  = "/ip4/1.2.3.6/tcp/4001"               // what c12DNS4Direct and the tcp record of c12DNSBoth resolve to
+	c12RelayHopR    = "/ip4/5.6.7.10/tcp/4007"              // relay hop of the relay address that only appears through resolution
+)
+
+// c12RelayResolved is the relay address of P that exists only in DNS records (as dialled: without the /p2p/P suffix).
+func c12RelayResolved() string {
+	return c12RelayHopR + "/p2p/" + fxID("relay").ID.String() + "/p2p-circuit"
+}
+
+// c12DNS builds the swarm's REAL resolver (ResolverFromMaDNS over madns.Resolver) on a scripted DNS backend; nothing
+// touches the network. The table does not depend on the scenario; scenarios without DNS names never consult it.
+func c12DNS() network.MultiaddrDNSResolver {
+	P := fxID("P").ID.String()
+	mock := &madns.MockResolver{
+		TXT: map[string][]string{
+			"_dnsaddr.relayonly.verif.example": {"dnsaddr=" + c12RelayResolved() + "/p2p/" + P},
+			"_dnsaddr.both.verif.example": {
+				"dnsaddr=" + c12RelayResolved() + "/p2p/" + P,
+				"dnsaddr=" + c12TCPResolved + "/p2p/" + P,
+				"dnsaddr=/ip4/6.6.6.6/tcp/4001/p2p/" + fxID("mallory").ID.String(), // somebody else's record: dropped by the resolver
+			},
+			"_dnsaddr.nested.verif.example": {"dnsaddr=" + c12DNSRelayOnly + "/p2p/" + P},
+		},
+		IP: map[string][]net.IPAddr{"direct.verif.example": {{IP: net.ParseIP("1.2.3.6")}}},
+	}
+	r, err := madns.NewResolver(madns.WithDefaultResolver(mock))
+	if err != nil {
+		panic(err)
+	}
+	return ResolverFromMaDNS{Resolver: r}
+}
 
 type c12Op struct {
 	Kind         string // "stream" (NewStream) or "dial" (DialPeer)
@@ -45,26 +87,27 @@ type c12Scn struct {
 	DirectAppears bool // an inbound direct connection is admitted at some point
 	DirectCloses  bool // the (initial or appearing) direct connection is closed at some point
 	LimitedCloses bool
-	Limited2      bool // a second limited connection is admitted at some point
+	Limited2      bool  // a second limited connection is admitted at some point
+	MustSucceed   []int // baseline (non-vacuity): these ops return a connection in every complete execution
 }
 
 type c12OpRun struct {
-	spec         c12Op
-	stream       network.Stream
-	conn         network.Conn
-	err          error
-	start, end   int64
-	startT, endT time.Time
-	cancelT      time.Time
-	cancelAt     int64
-	ctxErr       error
+	spec                c12Op
+	stream              network.Stream
+	conn                network.Conn
+	err                 error
+	start, end          int64
+	startT, endT        time.Time
+	cancelT             time.Time
+	cancelAt            int64
+	ctxErr              error
 	cancelIdle, endIdle time.Duration
 }
 
 func c12Body(sc c12Scn) func(x *vs.Exec) {
 	return func(x *vs.Exec) {
 		s := x.S
-		env := fxNewEnv(0, 0)
+		env := fxNewEnv(0, 0, WithMultiaddrResolver(c12DNS()))
 		P := fxID("P")
 		for _, a := range sc.Addrs {
 			env.PS.AddAddr(P.ID, ma.StringCast(a), peerstore.PermanentAddrTTL)
@@ -261,6 +304,13 @@ func c12Oracle(x *vs.Exec, sc c12Scn, env *fxEnv, runs []*c12OpRun) {
 			}
 		}
 	}
+	// baseline: the scenario is what it claims to be (e.g. the DNS name really resolves to a dialable address)
+	for _, i := range sc.MustSucceed {
+		if r := runs[i]; r.err != nil || r.conn == nil {
+			x.Fail("baseline-dial-failed", "op %d (%+v) must succeed in this scenario but returned %v; dials: %s", i, r.spec, r.err, c12DialList(env))
+			return
+		}
+	}
 	onlyFD := len(runs) > 0
 	for _, r := range runs {
 		if !r.spec.ForceDirect {
@@ -303,9 +353,19 @@ func c12Oracle(x *vs.Exec, sc c12Scn, env *fxEnv, runs []*c12OpRun) {
 	}
 }
 
+func c12DialList(env *fxEnv) string {
+	var sb strings.Builder
+	for _, d := range env.AllDials() {
+		fmt.Fprintf(&sb, "[%s force-direct=%v %s]", d.Addr, d.ForceDirect, d.Result)
+	}
+	return sb.String()
+}
+
 func c12Scenarios(thorough bool) []c12Scn {
 	relay := "/ip4/5.6.7.8/tcp/4007/p2p/" + fxID("relay").ID.String() + "/p2p-circuit"
+	relayR := c12RelayResolved()
 	plain := c12Op{Kind: "stream"}
+	fdDial := c12Op{Kind: "dial", ForceDirect: true}
 	scs := []c12Scn{
 		{Name: "waiter with limited conn, direct appears", HaveLimited: true, Ops: []c12Op{plain}, DirectAppears: true},
 		{Name: "waiter with limited conn, direct appears and closes", HaveLimited: true, Ops: []c12Op{plain}, DirectAppears: true, DirectCloses: true},
@@ -319,6 +379,10 @@ func c12Scenarios(thorough bool) []c12Scn {
 		{Name: "plain dial then force-direct dial join one worker: relay succeeds, the shared direct dial fails", Addrs: []string{relay, c12TCP1}, Complete: []string{relay}, Fail: []string{c12TCP1}, Ops: []c12Op{{Kind: "dial"}, {Kind: "dial", ForceDirect: true}}, Ticks: []time.Duration{501 * time.Millisecond}},
 		{Name: "no-dial stream without any connection", Addrs: []string{c12TCP1}, Complete: []string{c12TCP1}, Ops: []c12Op{{Kind: "stream", NoDial: true}}},
 		{Name: "plain stream, peer reachable only through relay", Addrs: []string{relay}, Complete: []string{relay}, Ops: []c12Op{plain}},
+		// addresses that are relay addresses only after resolution (the force-direct filter has to look at what is DIALLED)
+		{Name: "force-direct dial with limited conn, peerstore holds only a dnsaddr name that resolves to a relay address", HaveLimited: true, Addrs: []string{c12DNSRelayOnly}, Complete: []string{relayR}, Ops: []c12Op{fdDial}},
+		{Name: "plain dial, dnsaddr name resolves to a relay address only (baseline: the resolved relay address is dialled)", Addrs: []string{c12DNSRelayOnly}, Complete: []string{relayR}, Ops: []c12Op{{Kind: "dial"}}, MustSucceed: []int{0}},
+		{Name: "force-direct dial with limited conn; dnsaddr name resolves to relay + tcp, dns4 name to tcp, nested dnsaddr name to a relay address, literal relay address", HaveLimited: true, Addrs: []string{c12DNSBoth, c12DNS4Direct, c12DNSNested, relay}, Complete: []string{relay, c12TCPResolved}, Ops: []c12Op{fdDial}, MustSucceed: []int{0}},
 	}
 	if thorough {
 		scs = append(scs,
@@ -326,6 +390,9 @@ func c12Scenarios(thorough bool) []c12Scn {
 			c12Scn{Name: "waiter with limited + direct conn, direct closing", HaveLimited: true, HaveDirect: true, Ops: []c12Op{plain}, DirectCloses: true},
 			c12Scn{Name: "waiter with limited conn, limited closes", HaveLimited: true, Ops: []c12Op{plain}, LimitedCloses: true},
 			c12Scn{Name: "force-direct and plain dial, relay+tcp", Addrs: []string{relay, c12TCP1}, Complete: []string{relay, c12TCP1}, Ops: []c12Op{{Kind: "dial", ForceDirect: true}, {Kind: "dial"}}},
+			c12Scn{Name: "plain dial then force-direct dial join one worker, dnsaddr name resolves to relay + tcp: relay succeeds, the shared direct dial fails", Addrs: []string{c12DNSBoth}, Complete: []string{relayR}, Fail: []string{c12TCPResolved}, Ops: []c12Op{{Kind: "dial"}, fdDial}, Ticks: []time.Duration{501 * time.Millisecond}},
+			c12Scn{Name: "force-direct and plain dial, dnsaddr name resolves to relay + tcp", Addrs: []string{c12DNSBoth}, Complete: []string{relayR, c12TCPResolved}, Ops: []c12Op{fdDial, {Kind: "dial"}}},
+			c12Scn{Name: "force-direct stream and plain stream without any connection, nested dnsaddr name (relay) and dns4 name (tcp)", Addrs: []string{c12DNSNested, c12DNS4Direct}, Complete: []string{relayR, c12TCPResolved}, Ops: []c12Op{{Kind: "stream", ForceDirect: true}, plain}},
 		)
 	}
 	return scs
